@@ -15,6 +15,7 @@ import (
 	"math"
 	"sort"
 	"strconv"
+	"strings"
 )
 
 const (
@@ -172,9 +173,30 @@ func mustAtoi64(fields []string, index, line int) int64 {
 // contains non-unique records the error is a csv.ParseError identifying the second non-unique
 // record.
 func ReadFrom(r io.Reader) (idx Index, err error) {
-	tr := csv.NewReader(r)
-	tr.Comma = '\t'
-	tr.FieldsPerRecord = 5
+	// A .fai file is plain tab-separated text: sequence names are written
+	// verbatim by WriteTo (and by samtools faidx), so no CSV quoting rules
+	// apply. Lines are split at tabs; empty lines are skipped and errors are
+	// reported as csv.ParseError values as before.
+	br := bufio.NewReader(r)
+	physical := 0
+	read := func() ([]string, error) {
+		for {
+			text, err := br.ReadString('\n')
+			if err != nil && (err != io.EOF || text == "") {
+				return nil, err
+			}
+			physical++
+			text = strings.TrimSuffix(strings.TrimSuffix(text, "\n"), "\r")
+			if text == "" {
+				continue
+			}
+			rec := strings.Split(text, "\t")
+			if len(rec) != 5 {
+				return rec, parseError(physical, 1, csv.ErrFieldCount)
+			}
+			return rec, nil
+		}
+	}
 	defer func() {
 		r := recover()
 		if r != nil {
@@ -190,7 +212,7 @@ func ReadFrom(r io.Reader) (idx Index, err error) {
 		}
 	}()
 	for line := 1; ; line++ {
-		rec, err := tr.Read()
+		rec, err := read()
 		if err == io.EOF {
 			return idx, nil
 		}
